@@ -58,7 +58,7 @@ impl Df {
     }
 }
 
-pub fn arf_line<const N: usize>(df: Df, pre: &[u8], ri: usize, srw: &ASrw, choices: &str, maxcalls: usize, w: &mut impl std::io::Write) -> bool {
+pub fn arf_line<const N: usize>(dfs: &[Df], pre: &[u8], ri: usize, srw: &ASrw, choices: &str, maxcalls: usize, w: &mut impl std::io::Write) -> bool {
     if pre.len() > N || ri > pre.len() || (ri > 0 && ri == pre.len()) {
         return false;
     }
@@ -74,7 +74,9 @@ pub fn arf_line<const N: usize>(df: Df, pre: &[u8], ri: usize, srw: &ASrw, choic
     let mut cx = Context::from_waker(&wk);
     let mut ch = choices.chars();
     let mut after_terminal = 0;
-    for _ in 0..maxcalls {
+    for callno in 0..maxcalls {
+        // the deframer is a per-call argument: call k uses dfs[k % len] (a cancelled call counts as a call)
+        let df = dfs[callno % dfs.len()];
         log.borrow_mut().push("C".into());
         // one call: poll until Ready or until cancelled
         let outcome: Option<String> = {
@@ -129,7 +131,7 @@ pub fn arf_line<const N: usize>(df: Df, pre: &[u8], ri: usize, srw: &ASrw, choic
             }
         }
     }
-    writeln!(w, "ARF {} {} {} {} {} {} {} | {} ; {}", N, df.name(), hex(pre), ri, srw.describe(), if choices.is_empty() { "-" } else { choices }, maxcalls, polls.join(","), logstr(&log)).unwrap();
+    writeln!(w, "ARF {} {} {} {} {} {} {} | {} ; {}", N, dfs.iter().map(|d| d.name()).collect::<Vec<_>>().join("+"), hex(pre), ri, srw.describe(), if choices.is_empty() { "-" } else { choices }, maxcalls, polls.join(","), logstr(&log)).unwrap();
     true
 }
 
@@ -223,7 +225,7 @@ fn compositions(n: usize) -> Vec<Vec<usize>> {
     out
 }
 
-pub fn dispatch(n: usize, df: Df, pre: &[u8], ri: usize, srw: &ASrw, choices: &str, maxcalls: usize, w: &mut impl std::io::Write) -> bool {
+pub fn dispatch(n: usize, df: &[Df], pre: &[u8], ri: usize, srw: &ASrw, choices: &str, maxcalls: usize, w: &mut impl std::io::Write) -> bool {
     match n {
         0 => arf_line::<0>(df, pre, ri, srw, choices, maxcalls, w),
         1 => arf_line::<1>(df, pre, ri, srw, choices, maxcalls, w),
@@ -253,7 +255,9 @@ pub fn run(mode: &str, thorough: bool, seed: u64, w: &mut impl std::io::Write) {
     let alpha = [b'a', b'\r', b'\n'];
     let maxlen = if thorough { 4 } else { 3 };
     let sizes: Vec<usize> = if thorough { vec![0, 1, 2, 3, 4, 6] } else { vec![1, 2, 3, 4] };
-    let dfs = [Df::Line, Df::Crlf, Df::LenPrefix];
+    // single deframers, and a different deframer on alternate calls (the deframer is a per-call argument: what one
+    // call concluded about the buffered bytes says nothing about the next call's verdict)
+    let dfs: Vec<Vec<Df>> = vec![vec![Df::Line], vec![Df::Crlf], vec![Df::LenPrefix], vec![Df::Crlf, Df::Line], vec![Df::LenPrefix, Df::Line], vec![Df::Line, Df::LenPrefix]];
     for s in strings(&alpha, maxlen) {
         for comp in compositions(s.len()) {
             // reader calls: one per chunk plus the final EOF call; a Pending may precede each of them
@@ -282,7 +286,7 @@ pub fn run(mode: &str, thorough: bool, seed: u64, w: &mut impl std::io::Write) {
                 };
                 for choices in &choice_sets {
                     for &size in &sizes {
-                        for df in dfs {
+                        for df in &dfs {
                             if dispatch(size, df, &[], 0, &srw, choices, s.len() + np + 8, w) {
                                 n += 1;
                             }
@@ -297,7 +301,14 @@ pub fn run(mode: &str, thorough: bool, seed: u64, w: &mut impl std::io::Write) {
     let cases = if thorough { 40000 } else { 4000 };
     for _ in 0..cases {
         let size = [2usize, 3, 4, 5, 6, 8, 16, 64][rng.below(8)];
-        let df = [Df::Line, Df::Crlf, Df::Line, Df::RejectX][rng.below(4)];
+        let df: Vec<Df> = match rng.below(7) {
+            0 | 1 => vec![Df::Line],
+            2 => vec![Df::Crlf],
+            3 => vec![Df::RejectX],
+            4 => vec![Df::Crlf, Df::Line],
+            5 => vec![Df::Line, Df::Crlf, Df::LenPrefix],
+            _ => vec![Df::LenPrefix, Df::Crlf],
+        };
         let pl = rng.below(size.min(6) + 1);
         let pre = rng.bytes(pl, b"ab\r\n");
         let ri = if pl > 1 { rng.below(pl) } else { 0 };
@@ -320,7 +331,7 @@ pub fn run(mode: &str, thorough: bool, seed: u64, w: &mut impl std::io::Write) {
         let np = racts.iter().filter(|a| **a == RAct::Pending).count();
         let choices: String = if cancel { (0..np).map(|_| if rng.chance(1, 2) { 'c' } else { 'r' }).collect() } else { String::new() };
         let srw = ASrw::new(1, &data, racts);
-        if dispatch(size, df, &pre, ri, &srw, &choices, 40, w) {
+        if dispatch(size, &df, &pre, ri, &srw, &choices, 40, w) {
             n += 1;
         }
         if rng.chance(1, 3) {
@@ -390,7 +401,7 @@ pub fn run(mode: &str, thorough: bool, seed: u64, w: &mut impl std::io::Write) {
         let pre: Vec<u8> = (0..pl).map(|i| b'p' + i as u8).collect();
         let ri = if pl > 1 { rng.below(pl) } else { 0 };
         let srw = ASrw::new(1, &data, racts);
-        if dispatch(size, df, &pre, ri, &srw, &choices, 200, w) {
+        if dispatch(size, &[df], &pre, ri, &srw, &choices, 200, w) {
             n += 1;
         }
     }
@@ -400,7 +411,7 @@ pub fn run(mode: &str, thorough: bool, seed: u64, w: &mut impl std::io::Write) {
             let mut v = vec![RAct::Data(2, false), RAct::Pending, RAct::Data(3, false), RAct::Data(1, false)];
             v.insert(at, RAct::Err(kind));
             let srw = ASrw::new(1, b"ab\ncd\n", v);
-            if dispatch(8, Df::Line, &[], 0, &srw, if cancel { "c" } else { "r" }, 10, w) {
+            if dispatch(8, &[Df::Line], &[], 0, &srw, if cancel { "c" } else { "r" }, 10, w) {
                 n += 1;
             }
         }
@@ -428,7 +439,7 @@ pub fn run(mode: &str, thorough: bool, seed: u64, w: &mut impl std::io::Write) {
                 let srw = ASrw::new(1, &data, racts);
                 // enough choices for spurious pending points too
                 let ch: String = std::iter::repeat(if cancel { 'c' } else { 'r' }).take(np + 8).collect();
-                if dispatch(size, df, &[], 0, &srw, &ch, np + 16, w) {
+                if dispatch(size, &[df], &[], 0, &srw, &ch, np + 16, w) {
                     n += 1;
                     ln += 1;
                 }
@@ -444,8 +455,8 @@ pub fn replay_line(l: &str, w: &mut impl std::io::Write) -> bool {
     let log = Log::default();
     match head[0] {
         "ARF" if head.len() == 8 => {
-            match (head[1].parse::<usize>(), Df::from_name(head[2]), unhex(head[3]), head[4].parse::<usize>(), ASrw::parse(head[5], &log), head[7].parse::<usize>()) {
-                (Ok(n), Some(df), Some(pre), Ok(ri), Some(srw), Ok(mc)) => dispatch(n, df, &pre, ri, &srw, if head[6] == "-" { "" } else { head[6] }, mc, w),
+            match (head[1].parse::<usize>(), head[2].split('+').map(Df::from_name).collect::<Option<Vec<Df>>>(), unhex(head[3]), head[4].parse::<usize>(), ASrw::parse(head[5], &log), head[7].parse::<usize>()) {
+                (Ok(n), Some(df), Some(pre), Ok(ri), Some(srw), Ok(mc)) => dispatch(n, &df, &pre, ri, &srw, if head[6] == "-" { "" } else { head[6] }, mc, w),
                 _ => false,
             }
         }
